@@ -45,8 +45,15 @@ def long_texts():
     return st.one_of(ascii_, S.unicode_text(200))
 
 
+def surrogate_texts():
+    # what sys.argv / os.fsdecode produce for bytes that are not UTF-8 (U+DC80..U+DCFF), and other lone surrogates
+    sur = st.one_of(st.integers(0xDC80, 0xDCFF), st.integers(0xD800, 0xDFFF)).map(chr)
+    return st.builds(lambda a, x, b: a + x + b, st.text(alphabet="abc é", max_size=6), sur, st.text(alphabet="xyz\udcc3\udca9", max_size=4))
+
+
 def texts():
-    return st.one_of(S.unicode_text(), S.unicode_text(40), sentences(), st.just(""), long_texts())
+    return st.one_of(S.unicode_text(), S.unicode_text(40), sentences(), st.just(""), long_texts(),
+                     S.unicode_text(), S.unicode_text(40), sentences(), surrogate_texts())
 
 
 def master_matches(sig, what, node, ref, testnet):
@@ -63,7 +70,19 @@ def master_matches(sig, what, node, ref, testnet):
 def check_text(case, ctx):
     bip39, BaseWallet, PaperWallet, Prv = _impl()
     m, pw, testnet = case["m"], case["pw"], case["testnet"]
-    want = R39.seed(m, pw)
+    try:
+        want = R39.seed(m, pw)
+    except UnicodeEncodeError:
+        # not text: a str holding lone surrogate code points has no UTF-8 form, so BIP39 defines no seed for it.  The only
+        # acceptable outcome is an error - never key material made from some other byte string
+        ctx.count("unencodable-str (lone surrogate)")
+        for what, f in (("bip39_seed_from_mnemonic", lambda: bip39.bip39_seed_from_mnemonic(m, pw)),
+                        ("from_mnemonic", lambda: (PaperWallet if case["paper"] else BaseWallet).from_mnemonic(m, pw, testnet).master.extended_private_key())):
+            st_, got = call(f)
+            if st_ == "ok":
+                raise Violation("C03/seed/unencodable-text-accepted", "%s(%r, %r): the text has no UTF-8 encoding (lone surrogate), yet "
+                                "key material %r was produced" % (what, m, pw, got.hex() if isinstance(got, bytes) else got))
+        return
     st_, got = call(bip39.bip39_seed_from_mnemonic, mnemonic=m, password=pw) if case["paper"] else \
         call(bip39.bip39_seed_from_mnemonic, m, pw)
     if st_ == "exc":
@@ -210,12 +229,22 @@ def check_ctor(case, ctx):
 
 def gen_new(tier):
     return st.fixed_dictionaries({"words": st.sampled_from([12, 15, 18, 21, 24]), "pw": st.one_of(st.just(""), S.unicode_text(8)),
-                                  "testnet": st.booleans()})
+                                  "testnet": st.booleans(), "route": st.integers(0, 5)})
 
 
 def check_new(case, ctx):
     bip39, BaseWallet, PaperWallet, Prv = _impl()
-    st_, w = call(BaseWallet.new_wallet, case["words"], case["pw"], case["testnet"])
+    # every entry point that creates a wallet from fresh entropy, positional and keyword
+    bits = case["words"] * 32 // 3
+    route = case.get("route", 0) % 6
+    cls = PaperWallet if route % 2 else BaseWallet
+    if route in (0, 1):
+        st_, w = call(cls.new_wallet, case["words"], case["pw"], case["testnet"])
+    elif route in (2, 3):
+        st_, w = call(cls.from_entropy_bits, bits, case["pw"], case["testnet"])
+    else:
+        st_, w = call(cls.from_entropy_bits, entropy_bits=bits, password=case["pw"], testnet=case["testnet"])
+    ctx.count("route:%s.%s" % (cls.__name__, "new_wallet" if route < 2 else "from_entropy_bits"))
     if st_ == "exc":
         raise Violation("C03/new/raised", "new_wallet raised %r" % (w,))
     if not isinstance(w.mnemonic, str) or len(w.mnemonic.split(" ")) != case["words"]:
@@ -229,6 +258,8 @@ def check_new(case, ctx):
     except R.Invalid:
         return
     master_matches("C03/new", "new_wallet(%d words, pw %r)" % (case["words"], case["pw"]), w.master, rm, case["testnet"])
+    if w.password != case["pw"]:
+        raise Violation("C03/new/echo", "the wallet records passphrase %r, it was created with %r" % (w.password, case["pw"]))
     st_, w2 = call(BaseWallet.from_mnemonic, w.mnemonic, w.password, case["testnet"])
     if st_ == "exc" or not (w2 == w):
         raise Violation("C03/new/not-reproducible", "from_mnemonic(w.mnemonic, w.password) != w")
@@ -366,7 +397,7 @@ def clauses():
         Clause("new-wallet", check_new,
                "new_wallet(words, passphrase, network): valid sentence, master equals the reference derivation of the "
                "sentence it reports, from_mnemonic(w.mnemonic, w.password) reproduces it",
-               gen=gen_new, nontrivial=lambda c: True, key=lambda c: [c["words"], c["pw"], c["testnet"]],
+               gen=gen_new, nontrivial=lambda c: True, key=lambda c: [c["words"], c["pw"], c["testnet"], c.get("route", 0)],
                n={"quick": 200, "thorough": 5000}, shards={"quick": 8, "thorough": 16}),
         __import__("vlib.cold", fromlist=["x"]).cold_clause(
             "C03", st.tuples(st.sampled_from(["seed", "master"]),
